@@ -28,6 +28,10 @@ def run_one(pid, name, inplace, tier="quick", seed="0"):
     meta = json.load(open(os.path.join(d, "meta.json")))
     checks = meta.get("checks", [pid])
     res = {"property": pid, "name": name, "checks": {}}
+    if str(meta.get("status", "")).startswith("obsolete"):
+        # the change no longer breaks the property on the current tree (see its meta.json)
+        res["obsolete"] = meta["status"]
+        return res
     if inplace:
         tree = "/repo"
         r = sh(f"git -C /repo apply {patch}")
@@ -84,6 +88,9 @@ def main():
                 r = run_one(pid, name, inplace)
                 results.append(r)
                 caught = any(c["exit"] == 1 for c in r["checks"].values())
+                if r.get("obsolete"):
+                    print(f"{pid}/{name}: OBSOLETE", flush=True)
+                    continue
                 print(f"{pid}/{name}: {'CAUGHT' if caught else 'MISSED'} {json.dumps(r['checks'])[:300]}",
                       flush=True)
     out = os.path.join(SEEDED, "RESULTS.json")
